@@ -507,6 +507,9 @@ func (root *Root) resolveField(
 		field.ConType = t
 		ea = append(ea, field.sortArgs()...)
 		if 0 < len(ea) {
+			// Not usable as is so check again the next time it is reached,
+			// the next element of a list or the next request.
+			field.ConType = nil
 			Errors(ea).in(field.key())
 			return
 		}
